@@ -509,6 +509,36 @@ func runC20(tw *traceWriter, r *rand.Rand, ops []string, et int32, cred string) 
 					c2.Destroy()
 					w.close()
 				}
+			case "basicAuth":
+				// the service checks a user name and password itself (HTTP basic authentication): right and wrong passwords, passwords
+				// with the characters the header format gives a meaning to, and values that are no pair at all
+				st := service.NewSettings(skt, service.SName("HTTP/svc.c20.test"), service.Logger(lg))
+				mk := func(tag string) string {
+					v := tag + base64.RawURLEncoding.EncodeToString(rbytes(r, 15))
+					markers = append(markers, secretMarker{"password", []byte(v)})
+					return v
+				}
+				pws := []string{curPw, mk("Wrong-"), mk("Co") + ":" + mk("lon-") + ":x", mk("At-") + "@" + mk("sign-"), mk("Back-") + `\` + mk("slash-")}
+				for pi, pw := range pws {
+					for ui, user := range []string{"alice@" + realm, realm + `\alice`, "alice", "nobody@" + realm} {
+						h := base64.StdEncoding.EncodeToString([]byte(user + ":" + pw))
+						id, ok, e := service.NewKRB5BasicAuthenticator(h, cfg, st, nil).Authenticate()
+						emitErr(fmt.Sprintf("basicAuth-%d-%d", pi, ui), e)
+						if ok && id != nil {
+							if c, isC := id.(*credentials.Credentials); isC {
+								if j, e := c.JSON(); e == nil {
+									outs = append(outs, output{fmt.Sprintf("json:basicauth-identity-%d-%d", pi, ui), []byte(j)})
+								}
+							}
+						}
+					}
+				}
+				// no pair at all: the whole value is what the user typed into the password field
+				whole := mk("Nopair-")
+				_, _, e := service.NewKRB5BasicAuthenticator(base64.StdEncoding.EncodeToString([]byte(whole)), cfg, st, nil).Authenticate()
+				emitErr("basicAuth-nopair", e)
+				_, _, e = service.NewKRB5BasicAuthenticator(whole, cfg, st, nil).Authenticate() // not even base64
+				emitErr("basicAuth-nobase64", e)
 			case "destroy":
 				cl.Destroy()
 			}
@@ -567,6 +597,26 @@ func c20truncations(tw *traceWriter, r *rand.Rand, thorough bool) error {
 		}
 		tw.emit(map[string]interface{}{"ev": "truncation", "file": "keytab", "cut": cut, "of": len(img), "err": e != nil, "hits": findMarkers([]byte(text), markers), "panic": ""})
 		_ = p // a panic here is C04's finding, not a leak
+	}
+	// the same image with a 16-bit field overwritten at every position: a damaged inner length makes a name swallow what follows it
+	// (the key), and whatever the parser then says about that name is an output
+	for pos := 0; pos+2 <= len(img); pos++ {
+		rest := len(img) - pos - 2
+		for _, v := range []int{rest, rest - 1, rest / 2, 0xffff, 0x7fff, 0x0100, int(img[pos])<<8 | int(img[pos+1]) + 17, int(img[pos])<<8 | int(img[pos+1]) + 40} {
+			if v < 0 {
+				continue
+			}
+			m := append([]byte{}, img...)
+			m[pos], m[pos+1] = byte(v>>8), byte(v)
+			var k2 keytab.Keytab
+			var e error
+			p := catch(func() { e = k2.Unmarshal(m) })
+			text := p
+			if e != nil {
+				text += e.Error()
+			}
+			tw.emit(map[string]interface{}{"ev": "truncation", "file": "keytab-damaged", "cut": pos*65536 + v, "of": len(img), "err": e != nil, "hits": findMarkers([]byte(text), markers), "panic": ""})
+		}
 	}
 	cc := unhx(testdata.CCACHE_TEST)
 	var c credentials.CCache
